@@ -8,6 +8,7 @@ pub mod c04;
 pub mod c05;
 pub mod c06;
 pub mod c07;
+pub mod c08;
 pub mod c09;
 pub mod c10;
 pub mod c11;
@@ -41,6 +42,7 @@ pub fn dispatch(ctx: &Ctx) -> Option<Outcome> {
         "C05" => c05::run(ctx),
         "C06" => c06::run(ctx),
         "C07" => c07::run(ctx),
+        "C08" => c08::run(ctx),
         "C09" => c09::run(ctx),
         "C10" => c10::run(ctx),
         "C11" => match ctx.part.as_deref() {
@@ -72,6 +74,7 @@ pub fn dispatch(ctx: &Ctx) -> Option<Outcome> {
 /// Entry for `verif-harness child <name> ...` (crash-isolated sub-work).
 pub fn child_main(args: &[String]) -> i32 {
     match args.first().map(|s| s.as_str()) {
+        Some("c08") => crate::checks::c08::child(&args[1..]),
         Some("c09-big") => crate::checks::c09::child_big(&args[1..]),
         _ => {
             eprintln!("unknown child {:?}", args.first());
